@@ -83,6 +83,16 @@ def step_oracle(G, op, r, ob, oa, removed):
     for n in ('nosuchname', 'zz9'):
         if n not in scan and G.line(n) is not None:
             out.append(('lookup of an unused identifier returns a line', None, str(G.line(n))))
+    if op[0] == 'add' and r[0] != 'ok' and op[1].startswith('L\t') and r[1] == ('gfapy', 'NotUniqueError'):
+        # the complement of a stored link (segments exchanged, orientations inverted, overlap complemented) is the same
+        # edge: adding it raises nothing
+        f = op[1].split('\t')
+        inv = {'+': '-', '-': '+'}
+        if len(f) >= 6 and f[2] in inv and f[4] in inv and not any(t.startswith('ID:') for t in f[6:]):
+            comp = [f[3], inv[f[4]], f[1], inv[f[2]], gen.complement_cigar(f[5])]
+            for row in ob.split('\n'):
+                if row.startswith('L|0|L\t') and row[4:].split('\t')[1:6] == comp and comp != f[1:6]:
+                    out.append(('adding the complement of the stored link %s raised NotUniqueError' % ' '.join(comp), 'accepted, nothing added', 'NotUniqueError'))
     if op[0] == 'add' and r[0] == 'ok':
         # an identifier carried by a line of another record type is in use: only U+U and O+O merge
         f = op[1].split('\t')
